@@ -2,6 +2,7 @@ package main
 
 import (
 	"fmt"
+	"regexp"
 	"strings"
 
 	"golang.org/x/tools/go/ssa"
@@ -49,7 +50,7 @@ func ruleGrammarGuards(c *Ctx) {
 		{"(*parser).parseMailbox", []string{lp + `#1 != nil`}, "local part failed"},
 		{"(*parser).parseMailbox", []string{lp + `#0 == ""`}, "empty local part"},
 		{"(*parser).parseMailbox", []string{`(*parser).expectByte(param0,64) != nil`}, "missing '@'"},
-		{"(*parser).parseMailbox", []string{`strings.HasSuffix((*strings.Builder).String(alloc:sb),"@") == true`}, "empty domain"},
+		{"(*parser).parseMailbox", []string{`strings.HasSuffix((*strings.Builder).String(alloc:strings.Builder),"@") == true`}, "empty domain"},
 		{"(*parser).parsePath", []string{`(*parser).parseMailbox(param0)#1 != nil`}, "mailbox failed"},
 		{"(*parser).parsePath", []string{`(*parser).acceptByte(param0,60) == true`, `(*parser).expectByte(param0,62) != nil`}, "'<' without '>'"},
 		{"(*parser).parsePath", []string{`(*parser).acceptByte(param0,64) == true`, `strings.IndexByte(parser.s,58) < 0`}, "source route without ':'"},
@@ -141,7 +142,7 @@ func ruleGrammarGuards(c *Ctx) {
 			for _, sc := range b.Succs {
 				hit := false
 				for _, a := range c.F.edgeAtoms(b, sc) {
-					if a == `local:value == ""` || a == `decodeXtext(next#2)#0 == ""` {
+					if localStringEmpty.MatchString(a) || a == `decodeXtext(next#2)#0 == ""` {
 						hit = true
 					}
 				}
@@ -472,3 +473,6 @@ func rulePathBytesPassThrough(c *Ctx) {
 		})
 	}
 }
+
+// a local string variable compared with "" (variables are named by type and ordinal, see allocName)
+var localStringEmpty = regexp.MustCompile(`^local:string(#\d+)? == ""$`)
